@@ -36,16 +36,60 @@ def harness(h, args, timeout=3000):
     return out.split("\n")[:-1]
 
 
+ORACLE_AS_LIMIT = 16 << 30      # address space of one reference-interpreter process
+OOM_PROGRAMS = []
+
+
+def _oracle_run(feed, fuel):
+    import resource
+    import subprocess
+
+    def lim():
+        resource.setrlimit(resource.RLIMIT_AS, (ORACLE_AS_LIMIT, ORACLE_AS_LIMIT))
+    return subprocess.run([common.ORACLE, "c01"] + ([str(fuel)] if fuel else []), input="\n".join(feed) + "\n",
+                          stdout=subprocess.PIPE, stderr=subprocess.PIPE, text=True, timeout=3000, preexec_fn=lim)
+
+
 def oracle(lines, fuel=None):
+    """the reference interpreter on the P/R lines.  A generated program may legitimately build data that grows
+    exponentially (golua then runs into the harness' limits and the pair is discarded like a fuel exhaustion); the Lean
+    evaluator has fuel but no memory bound, so its process runs under an address-space limit and a program that
+    exhausts it is isolated by bisection and discarded (`oof-mem`), never reported."""
     fuel = fuel or ORACLE_FUEL
     feed = [l for l in lines if l.startswith("P ") or l.startswith("R ")]
     exp = {}
     if not feed:
         return exp
-    for l in common.run_oracle("c01", feed, extra_args=[str(fuel)] if fuel else []):
-        p = l.split(" ", 2)
-        if len(p) == 3:
-            exp[(p[0], p[1])] = p[2]
+    order, by = [], {}
+    for l in feed:
+        pid = l.split(" ", 2)[1]
+        if pid not in by:
+            by[pid] = []
+            order.append(pid)
+        by[pid].append(l)
+
+    def solve(pids):
+        p = _oracle_run([l for pid in pids for l in by[pid]], fuel)
+        if p.returncode == 0:
+            for l in p.stdout.split("\n"):
+                w = l.split(" ", 2)
+                if len(w) == 3:
+                    exp[(w[0], w[1])] = w[2]
+            return
+        if len(pids) == 1:
+            if "out of memory" not in p.stderr and p.returncode not in (-9, 1, 134, -6):
+                raise common.BuildError("oracle c01 failed rc=%d on %s: %s" % (p.returncode, pids[0], p.stderr[-2000:]))
+            OOM_PROGRAMS.append(pids[0])
+            for l in by[pids[0]]:
+                w = l.split(" ")
+                if w[0] == "R" and len(w) >= 3:
+                    exp[(w[1], w[2])] = "oof-mem"
+            return
+        h = len(pids) // 2
+        solve(pids[:h])
+        solve(pids[h:])
+
+    solve(order)
     return exp
 
 
@@ -221,7 +265,10 @@ def run_mode(ctx, mode, n_quick, n_thorough):
         with ThreadPoolExecutor(max_workers=workers) as ex:
             outs = list(ex.map(lambda j: harness(h, ["gen", mode, str(j[1]), str(j[0]), str(nargs)]), jobs))
         lines = [l for o in outs for l in o]
+        n_oom = len(OOM_PROGRAMS)
         exp = oracle(lines)
+        if len(OOM_PROGRAMS) > n_oom:
+            ctx.count("discarded:reference-interpreter-out-of-memory", len(OOM_PROGRAMS) - n_oom)
         bad = compare(ctx, lines, exp, "generated")
         for l in lines:
             if l.startswith("H "):
